@@ -120,16 +120,17 @@ class PandasData(BaseIOSpec):
     def _can_update_other(self, other, sheet):
         if other is self:
             return True
-        elif sheet is None or self._sheet is None:
-            return False    # As in _can_add_other
+        elif not sheet or not self._sheet:
+            return False    # As in _can_add_other: '' is the default sheet
         else:
             return sheet != self._sheet
 
     def _on_update(self, sheet):
         self._sheet = sheet
         if "sheet_name" in self._read_args:
-            if sheet is None:
-                # read_excel returns a dict for sheet_name=None
+            if not sheet:
+                # read_excel returns a dict for sheet_name=None,
+                # and '' is written to the default sheet
                 del self._read_args["sheet_name"]
             else:
                 self._read_args["sheet_name"] = sheet
@@ -213,8 +214,8 @@ class PandasData(BaseIOSpec):
         if self._io.file_type == "csv":
             return False
         elif self._io.file_type == "excel":
-            if self._sheet is None or other.sheet is None:
-                return False
+            if not self._sheet or not other.sheet:
+                return False    # '' is written to the default sheet as None
             else:
                 return not self._sheet == other.sheet
         else:
